@@ -17,4 +17,5 @@ INVARIANT Regular
 INVARIANT OrderIndependent
 INVARIANT TwoStepEqualsOneStep
 INVARIANT SplitPropagation
+INVARIANT GetAtAgrees
 CHECK_DEADLOCK FALSE
